@@ -4,10 +4,9 @@
 set -e
 cd "$(dirname "$0")"
 export GOFLAGS=-mod=mod GOPROXY=off GOSUMDB=off GOTOOLCHAIN=local
-( cd coq && coq_makefile -f _CoqProject -o Makefile >/dev/null && timeout 3000 make -j16 )
-mkdir -p ocaml/gen
-( cd ocaml/gen && rm -f *.ml *.mli && timeout 600 coqc -Q ../../coq Casbin ../../coq/Extract.v && echo ok > .stamp )
-( cd ocaml && timeout 900 dune build 2>&1 )
+./coq/mk_coqproject.sh
+( cd coq && timeout 3000 make -j16 )
+./ocaml/build_model.sh
 cp /repo/go.sum harness/go.sum
 ( cd harness && timeout 900 go build -o bin/harness . )
 if [ -d translator ]; then cp /repo/go.sum translator/go.sum 2>/dev/null || true; ( cd translator && timeout 900 go build -o bin/translator . ); fi
